@@ -12,12 +12,14 @@ RULE = (
     "(keyword order permuted, values from T's whole domain, the first value bound again at the end); after every bind the bound "
     "function's expression list is evaluated on ALL assignments of the remaining arguments against the reference run with the parameters "
     "set to the bound values; the unbound object's AST and parameter table must not change, equal values must give equal truth tables, "
-    "wrong names / counts must raise. Non-trivial = >=2 binds with different values whose specialisations differ as functions; "
+    "wrong names / counts must raise. One case in seven is the matrix family: a Parameter[List[List[Qint[w]]]] of 1..3 x 1..4 elements read as m[i][j] "
+    "with run-time i, j (in-range rows judged against the python list lookup), bound to several shapes in turn. Non-trivial = >=2 binds with different values whose specialisations differ as functions; "
     "distinct by canonical JSON of the case"
 )
 ASSUMPTIONS = [
     "a bound value behaves as a constant: only rows on which the declared-width reading and the constant-width reading of the parameter agree are judged",
-    "parameters are not used as loop bounds or variable subscripts (rejected or constant-folded by the library; not part of the generated domain)",
+    "scalar parameters are not used as loop bounds or variable subscripts (rejected or constant-folded by the library; not part of the generated domain)",
+    "matrix family: rows with i or j outside the bound matrix are outside the domain (python raises IndexError)",
     "reference semantics of vlib/refsem.py",
 ]
 
@@ -56,6 +58,8 @@ def case(draw):
     nparams = draw(st.sampled_from([1, 1, 2, 2, 3]))
     pnames = ["p", "q", "r"][:nparams]
     ptypes = [draw(st.sampled_from(PTYPES)) for _ in pnames]
+    if nparams > 1 and draw(st.integers(0, 9)) < 4:
+        ptypes = [ptypes[0]] * nparams  # same-typed parameters: their values can be exchanged between binds
     nargs = draw(st.integers(1, 2))
     args = []
     rem = 6
@@ -104,11 +108,144 @@ def case(draw):
         binds.append({n: draw(value_strategy(t)) for n, t in zip(pnames, ptypes)})
     binds.append(dict(binds[0]))
     korder = [draw(st.permutations(pnames)) for _ in binds]
+    # a bind that passes the values of an earlier bind in the same call order but to exchanged names
+    pairs = [(a, b) for i, a in enumerate(pnames) for b in pnames[i + 1:] if ptypes[pnames.index(a)] == ptypes[pnames.index(b)]]
+    if pairs and draw(st.integers(0, 9)) < 6:
+        a, b = draw(st.sampled_from(pairs))
+        k = draw(st.integers(0, len(binds) - 1))
+        if binds[k][a] != binds[k][b]:
+            nb_ = dict(binds[k])
+            nb_[a], nb_[b] = binds[k][b], binds[k][a]
+            binds.insert(k + 1, nb_)
+            korder.insert(k + 1, [b if x == a else a if x == b else x for x in korder[k]])
     return {"prog": prog, "binds": binds, "kw_order": korder, "opt": draw(st.sampled_from(["default", "fast"]))}
 
 
+@st.composite
+def matrix_case(draw):
+    """a list-of-lists parameter read with two run-time indexes, bound to matrices of several shapes"""
+    w = draw(st.sampled_from([2, 2, 3]))
+    variant = draw(st.sampled_from(["elt", "elt", "cmp", "sum", "ife"]))
+    binds = []
+    for _ in range(draw(st.integers(2, 4))):
+        rows = draw(st.integers(1, 3))
+        cols = draw(st.integers(1, 4))
+        binds.append([[draw(st.integers(0, (1 << w) - 1)) for _ in range(cols)] for _ in range(rows)])
+    binds.append([list(r) for r in binds[0]])
+    return {"matrix": {"w": w, "variant": variant, "order": draw(st.sampled_from(["mij", "imj", "ijm"]))}, "binds": binds,
+            "opt": draw(st.sampled_from(["default", "fast"]))}
+
+
 def strategy(tier):
-    return case()
+    return st.one_of(case(), case(), case(), case(), case(), case(), matrix_case())
+
+
+def matrix_src(m):
+    w = m["w"]
+    formals = {"m": f"m: Parameter[List[List[Qint[{w}]]]]", "i": "i: Qint[2]", "j": "j: Qint[2]"}
+    order = [formals[c] for c in m["order"]]
+    free = [c for c in m["order"] if c != "m"]
+    v = m["variant"]
+    if v in ("cmp", "sum", "ife"):
+        order.append(f"a: Qint[{w}]")
+        free.append("a")
+    ret = "bool" if v == "cmp" else f"Qint[{w}]"
+    body = {"elt": "m[i][j]", "cmp": "m[i][j] == a", "sum": "m[i][j] + a", "ife": "m[i][j] if a > 1 else a"}[v]
+    return f"def f({', '.join(order)}) -> {ret}:\n    return {body}\n", free
+
+
+def judge_matrix(case):  # noqa: C901
+    import ast
+
+    from qlasskit import qlassf
+
+    m = case["matrix"]
+    w = m["w"]
+    feats = ["opt:" + case["opt"], "matrix-parameter", "variant:" + m["variant"]]
+    src, free = matrix_src(m)
+    try:
+        with progeval.time_limit(8):
+            try:
+                u = qlassf(src, to_compile=False, bool_optimizer=progeval.optimizer(case["opt"]))
+            except progeval.Timeout:
+                raise
+            except Exception as e:
+                return {"status": "rejected", "nontrivial": False, "features": feats + ["rejected-unbound:" + progeval.rejection_key(e)]}
+    except progeval.Timeout:
+        return {"status": "skip", "nontrivial": False, "features": feats + ["timeout"]}
+    ast0 = ast.dump(u.fun_ast)
+    widths = {"i": 2, "j": 2, "a": w}
+    nbits = sum(widths[c] for c in free)
+    judged = 0
+    shapes = set()
+    seen = {}
+    for bi, mat in enumerate(case["binds"]):
+        D = {"src": src, "binding": {"m": mat}, "bind_index": bi, "opt": case["opt"]}
+        try:
+            with progeval.time_limit(20):
+                try:
+                    qf = u.bind(m=[list(r) for r in mat])
+                except progeval.Timeout:
+                    raise
+                except Exception as e:
+                    if seen.get(json_key(mat)) is not None:
+                        return {"status": "violation", "kind": "rebind-raises", "detail": dict(D, exc=repr(e)[:300]), "features": feats}
+                    feats.append("bind-rejected:" + progeval.rejection_key(e))
+                    continue
+        except progeval.Timeout:
+            return {"status": "skip", "nontrivial": False, "features": feats + ["timeout"]}
+        if ast.dump(u.fun_ast) != ast0:
+            return {"status": "violation", "kind": "unbound-object-changed", "detail": D, "features": feats}
+        if [a.name for a in qf.args] != free:
+            return {"status": "violation", "kind": "bound-arguments", "detail": dict(D, got=[a.name for a in qf.args], expected=free), "features": feats}
+        try:
+            cols, mask = progeval.lib_columns(qf, nbits)
+        except boolsem.FreeSymbol as fs:
+            return {"status": "violation", "kind": "free-symbol", "detail": dict(D, symbol=str(fs)), "features": feats}
+        except boolsem.UnsupportedNode:
+            return {"status": "skip", "nontrivial": False, "features": feats + ["unsupported-node"]}
+        rbits = list(qf.returns.bitvec)
+        if any(x not in cols for x in rbits):
+            return {"status": "violation", "kind": "return-bit-undefined", "detail": D, "features": feats}
+        colt = tuple(cols[x] for x in rbits)
+        k = json_key(mat)
+        if seen.get(k) is not None and seen[k] != colt:
+            return {"status": "violation", "kind": "equal-values-different-functions", "detail": D, "features": feats}
+        seen[k] = colt
+        nr, nc = len(mat), len(mat[0])
+        shapes.add((nr, nc))
+        for r in range(1 << nbits):
+            vals = {}
+            pos = 0
+            for c in free:
+                vals[c] = (r >> pos) & ((1 << widths[c]) - 1)
+                pos += widths[c]
+            if vals["i"] >= nr or vals["j"] >= nc:
+                continue  # python raises IndexError: outside the function's domain
+            e = mat[vals["i"]][vals["j"]]
+            v = m["variant"]
+            if v == "cmp":
+                exp = [int(e == vals["a"])]
+            else:
+                if v == "sum":
+                    e = (e + vals["a"]) % (1 << w)
+                elif v == "ife":
+                    e = e if vals["a"] > 1 else vals["a"]
+                exp = [(e >> b) & 1 for b in range(w)]
+            got = [(cols[x] >> r) & 1 for x in rbits]
+            judged += 1
+            if got != exp:
+                return {"status": "violation", "kind": "specialisation-mismatch",
+                        "detail": dict(D, args=vals, expected_bits=exp, library_bits=got, expressions=[(str(s), str(x)) for s, x in qf.expressions][:12]),
+                        "features": feats}
+    feats.append("nonsquare" if any(a != b for a, b in shapes) else "square-only")
+    return {"status": "ok", "nontrivial": len(set(seen.values())) >= 2 and judged > 0, "features": feats, "rows": judged}
+
+
+def json_key(x):
+    import json
+
+    return json.dumps(x)
 
 
 def const_type_of(t, v):
@@ -142,6 +279,8 @@ def judge(case):  # noqa: C901
 
     from qlasskit import qlassf
 
+    if "matrix" in case:
+        return judge_matrix(case)
     prog = case["prog"]
     pnames = prog["params"]
     ptypes = {a[0]: a[1] for a in prog["args"] if a[0] in pnames}
